@@ -319,21 +319,26 @@ Fixpoint run_epilog (checked : bool) (u0 : uinfo) (l : list einsn) (rg : regs) (
     end
   end.
 
+(* uncacheable_step: the progress checks of the DWARF generic path, then regs.set_ip (fix for S9b:
+   before it the step was returned unchecked and ip was left stale) *)
+Definition pe_uncacheable (first : bool) (rg0 : regs) (ra : N) (rg' : regs) : cb_result rule regs :=
+  if (sp rg' =? sp rg0) && (ra =? ip rg0) then CbErrV rg'                 (* DidNotAdvance *)
+  else if negb first && (sp rg' <=? sp rg0) then CbErrV rg'               (* StackPointerMovedBackwards *)
+  else CbUncacheable ra (set_ip rg' ra).
+
 (* final: ra = read [rsp]; rsp += 8 *)
-Definition final_pop (checked : bool) (rg : regs) (m : mem) : cb_result rule regs :=
+Definition final_pop (checked : bool) (first : bool) (rg0 : regs) (rg : regs) (m : mem) : cb_result rule regs :=
   match m (sp rg) with
   | None => CbErrV rg
   | Some ra =>
-    if sp rg + 8 <? W64 then CbUncacheable ra (set_sp rg (sp rg + 8))
+    if sp rg + 8 <? W64 then pe_uncacheable first rg0 ra (set_sp rg (sp rg + 8))
     else if checked then CbErrV rg else CbPanic S_pe_own_add
   end.
 
-(* the unwind-code path: before the fix for S16 it collected the chained infos and the operations into
-   Vecs under every allocation policy (alloc = true); now the chain is walked in place *)
 Definition pe_eff_alloc := mkeff true false.
 Definition pe_eff := mkeff true false.
 
-Definition pe_step (checked : bool) (pe : pe_data) (address : N) (first : bool) (rg : regs) (m : mem)
+Definition pe_step_raw (checked : bool) (pe : pe_data) (address : N) (first : bool) (rg : regs) (m : mem)
   : cb_result rule regs * eff :=
   match pe_lookup (pe_funcs pe) address None with
   | None => (CbRule JustReturn, pe_eff)                 (* no function table entry: leaf *)
@@ -365,8 +370,8 @@ Definition pe_step (checked : bool) (pe : pe_data) (address : N) (first : bool) 
                       | Some _ => Some (CbHang, pe_eff)
                       | None =>
                         match run_epilog checked u0 insns rg m with
-                        | OpCont rg' => Some (final_pop checked rg' m, pe_eff)
-                        | OpBreak ra rg' => Some (CbUncacheable ra rg', pe_eff)
+                        | OpCont rg' => Some (final_pop checked first rg rg' m, pe_eff)
+                        | OpBreak ra rg' => Some (pe_uncacheable first rg ra rg', pe_eff)
                         | OpNoStack rg' => Some (CbErrV rg', pe_eff)
                         | OpPanic => Some (CbPanic S_pe_own_add, pe_eff)
                         end
@@ -391,8 +396,8 @@ Definition pe_step (checked : bool) (pe : pe_data) (address : N) (first : bool) 
             | Some _ => (CbHang, pe_eff_alloc)
             | None =>
               match run_ops_pe u0 ops rg m with
-              | OpCont rg' => (final_pop checked rg' m, pe_eff_alloc)
-              | OpBreak ra rg' => (CbUncacheable ra rg', pe_eff_alloc)
+              | OpCont rg' => (final_pop checked first rg rg' m, pe_eff_alloc)
+              | OpBreak ra rg' => (pe_uncacheable first rg ra rg', pe_eff_alloc)
               | OpNoStack rg' => (CbErrV rg', pe_eff_alloc)
               | OpPanic => (CbPanic S_pe_dep, pe_eff_alloc)
               end
@@ -402,6 +407,16 @@ Definition pe_step (checked : bool) (pe : pe_data) (address : N) (first : bool) 
       end
     end
   end.
+
+(* PeUnwinding::unwind_frame: when the step fails the registers are put back to what they were on
+   entry, so that the frame-pointer fallback starts from this frame's registers (fix: before it,
+   pops and frame-register restores done before the failure were left behind) *)
+Definition pe_restore (rg0 : regs) (cr : cb_result rule regs) : cb_result rule regs :=
+  match cr with CbErr _ => CbErr rg0 | CbErrV _ => CbErrV rg0 | x => x end.
+
+Definition pe_step (checked : bool) (pe : pe_data) (address : N) (first : bool) (rg : regs) (m : mem)
+  : cb_result rule regs * eff :=
+  (pe_restore rg (fst (pe_step_raw checked pe address first rg m)), snd (pe_step_raw checked pe address first rg m)).
 
 (* ---------- the documented procedure (x64 exception handling, "Unwind procedure"), the SPEC of C03 ---------- *)
 (* Returns Some (ra, regs) or None (failure); arithmetic is exact: None on wrap-around.
